@@ -329,7 +329,12 @@ func c05ZeroGuard(c *Ctx, eb *ssa.Function) {
 	if n < 2 {
 		c.undecided("R4", "zero-error", p.Pos(eb.Pos()), fmt.Sprintf("%d `divide by zero` error returns found, 2 confirmed by hand", n))
 	}
-	// every float QUO / integer REM in lang with a non-constant divisor
+	divisionGuards(c, "R4")
+}
+
+// divisionGuards: every QUO / REM with a non-constant divisor is dominated by divisor != 0.
+func divisionGuards(c *Ctx, rule string) {
+	p := c.P
 	for _, fn := range p.Funcs {
 		if !p.InLang(fn) && !p.InCli(fn) {
 			continue
@@ -343,6 +348,7 @@ func c05ZeroGuard(c *Ctx, eb *ssa.Function) {
 				return
 			}
 			key := fmt.Sprintf("division %s in %s", b.Op, shortName(fn))
+			_ = rule
 			guarded := false
 			for _, rl := range FactsOf(fn).At(b.Block()).Rels() {
 				if rl.op == relNE && rl.x == b.Y {
@@ -351,7 +357,7 @@ func c05ZeroGuard(c *Ctx, eb *ssa.Function) {
 					}
 				}
 			}
-			c.check(guarded, "R4", key, p.InstrPos(b), "dominated by divisor != 0 on the divisor's own value", "the divisor "+abbrevBinary(p.Render(b.Y))+" is not known to be non-zero here (for integers: a Go runtime panic)")
+			c.check(guarded, rule, key, p.InstrPos(b), "dominated by divisor != 0 on the divisor's own value", "the divisor "+abbrevBinary(p.Render(b.Y))+" is not known to be non-zero here (for integers: a Go runtime panic)")
 		})
 	}
 }
